@@ -263,3 +263,52 @@ func VH_array(steps int, size0 int) {
 		arCompare(env)
 	}
 }
+
+// VH_cyclic (C07): values that contain themselves. A program can build them with plain
+// indexed or property assignment; printing, echoing, comparing or concatenating them must
+// end normally or with a reported error, never with a host-runtime abort.
+func VH_cyclic(which int) {
+	in := NewInterpreter()
+	env := environment.NewEnvironmentWithParent(in.globals)
+	utils.HadError, utils.HadRuntimeError = false, false
+	verifClearEvents()
+	a, _ := in.eval(&ast.ArrayLiteral{Elements: []ast.Expr{lit(1.0, 1), lit(2.0, 1)}, Line: 1}, env, false)
+	b, _ := in.eval(&ast.ArrayLiteral{Elements: []ast.Expr{lit(3.0, 1)}, Line: 1}, env, false)
+	o, _ := in.eval(objectLiteralVia(env, lit(1.0, 1)), env, false)
+	env.Define("a", a)
+	env.Define("b", b)
+	env.Define("o", o)
+	switch which {
+	case 0: // a[0] = a
+		in.eval(&ast.ArrayAssignment{Array: ident("a", 2), Index: lit(0.0, 2), Value: ident("a", 2), Line: 2}, env, false)
+	case 1: // a[0] = b; b[0] = a
+		in.eval(&ast.ArrayAssignment{Array: ident("a", 2), Index: lit(0.0, 2), Value: ident("b", 2), Line: 2}, env, false)
+		in.eval(&ast.ArrayAssignment{Array: ident("b", 2), Index: lit(0.0, 2), Value: ident("a", 2), Line: 2}, env, false)
+	case 2: // o.self = o
+		in.eval(&ast.PropertyAssignment{Object: ident("o", 2), Property: tok(token.IDENTIFIER, "self", 2), Value: ident("o", 2), Line: 2}, env, false)
+	default: // a[1] = o; o.arr = a
+		in.eval(&ast.ArrayAssignment{Array: ident("a", 2), Index: lit(1.0, 2), Value: ident("o", 2), Line: 2}, env, false)
+		in.eval(&ast.PropertyAssignment{Object: ident("o", 2), Property: tok(token.IDENTIFIER, "arr", 2), Value: ident("a", 2), Line: 2}, env, false)
+	}
+	verifAssert("building-a-self-containing-value-is-not-an-error", !utils.HadRuntimeError)
+	target := "a"
+	if which == 2 {
+		target = "o"
+	}
+	use := verifChoice(4)
+	switch use {
+	case 0:
+		in.eval(&ast.PrintStatement{Expression: ident(target, 3)}, env, false)
+		verifAssert("printing-a-self-containing-value-ends", hvCountStdout() == 1 || utils.HadRuntimeError)
+	case 1:
+		in.eval(&ast.ExpressionStatement{Expression: ident(target, 3)}, env, true) // REPL echo
+		verifAssert("echoing-a-self-containing-value-ends", hvCountStdout() == 1 || utils.HadRuntimeError)
+	case 2:
+		r := evaluateBinary(a, tok(token.EQUAL_EQUAL, "==", 3), a)
+		rb, isB := r.(bool)
+		verifAssert("self-containing-value-equals-itself", isB && rb)
+	default:
+		evaluateBinary("s", tok(token.PLUS, "+", 3), a)
+		verifAssert("concatenating-a-container-is-an-error-not-a-crash", utils.HadRuntimeError)
+	}
+}
